@@ -142,6 +142,19 @@ def build(targets):
     recompiled (tables changed, a source is newer than its .vo): checks of an unchanged development run concurrently."""
     global _LOCK
     os.makedirs(kv.BUILD, exist_ok=True)
+    # turnstile: every check passes through the gate; a check that has to rebuild keeps the gate while it waits
+    # for the exclusive lock, so the stream of readers cannot starve it (flock has no writer preference)
+    gate = open(os.path.join(kv.BUILD, '.gate'), 'w')
+    fcntl.flock(gate, fcntl.LOCK_EX)
+    try:
+        return _build_gated(targets)
+    finally:
+        fcntl.flock(gate, fcntl.LOCK_UN)
+        gate.close()
+
+
+def _build_gated(targets):
+    global _LOCK
     _LOCK = open(os.path.join(kv.BUILD, '.lock'), 'w')
     fcntl.flock(_LOCK, fcntl.LOCK_SH)
     env = kv.impl_env()
